@@ -31,7 +31,7 @@ func init() {
 		Run:   run,
 		Setup: func(c *core.Ctx) { c.State = &aliasState{} },
 		Floors: func(t string) map[string]int64 {
-			return map[string]int64{"alias.checked": 1000, "neg.nonfinite_rejected": 100, "neg.unsupported_rejected": 100, "empty_later_member": 100, "coord.neg_zero": 100, "coord.subnormal": 100,
+			return map[string]int64{"alias.checked": 1000, "neg.nonfinite_rejected": 100, "neg.nonfinite_in_large_geometry": 100, "neg.unsupported_rejected": 100, "empty_later_member": 100, "coord.neg_zero": 100, "coord.subnormal": 100,
 				"type.Point": 100, "type.MultiPoint": 100, "type.LineString": 100, "type.MultiLineString": 100, "type.Polygon": 100, "type.MultiPolygon": 100}
 		},
 	})
@@ -305,10 +305,41 @@ func negative(c *core.Ctx) {
 		return
 	}
 	g, name, _ := GenGeom(r, gen.FiniteBitsCoord)
+	at := -1
+	if r.Chance(0.15) {
+		// a large geometry (one path of 63..65537 vertices): the offending value sits next to the
+		// ends or to a likely chunk boundary
+		n := gen.BigLen(r)
+		pts := make([]geom.Point, n)
+		for i := range pts {
+			pts[i] = geom.Point{X: r.Range(-180, 180), Y: r.Range(-90, 90)}
+		}
+		small := func() []geom.Point { return []geom.Point{{X: 1, Y: 1}, {X: 2, Y: 1}, {X: 1, Y: 2}} }
+		switch r.Intn(5) {
+		case 0:
+			g, name, at = geom.LineString(pts), "LineString", 0
+		case 1:
+			g, name, at = geom.MultiPoint(pts), "MultiPoint", 0
+		case 2:
+			g, name, at = geom.Polygon{small(), pts}, "Polygon", 3
+		case 3:
+			g, name, at = geom.MultiLineString{small(), pts, small()}, "MultiLineString", 3
+		default:
+			g, name, at = geom.MultiPolygon{{small()}, {pts, small()}}, "MultiPolygon", 3
+		}
+		at += gen.EdgePos(r, n)
+		c.Count("neg.nonfinite_in_large_geometry")
+	}
 	// poison one coordinate
 	bad := []float64{math.NaN(), math.Inf(1), math.Inf(-1)}[r.Intn(3)]
-	g = poison(g, r.Intn(g.Len()), r.Bool(), bad)
+	if at < 0 {
+		at = r.Intn(g.Len())
+	}
+	g = poison(g, at, r.Bool(), bad)
 	detail := map[string]interface{}{"geometry": gen.Dump(g)}
+	if g.Len() > 2000 {
+		detail = map[string]interface{}{"type": name, "vertices": g.Len(), "non_finite_value": fmt.Sprint(bad), "at_vertex": at, "note": "the replay regenerates the case from its seed"}
+	}
 	c.Guard("geojson.Encode(nonfinite):"+name, detail, func() {
 		b, err := geojson.Encode(g)
 		if err == nil {
